@@ -74,6 +74,11 @@ type Stream struct {
 	// Contains frames waiting to be sent to the peer. Is emptied by AsyncFlush or Flush.
 	pendingFrames []*Frame
 
+	// True while an AsyncFlush is writing pendingFrames to the underlying stream; the callbacks of AsyncFlush calls made
+	// meanwhile wait in flushWaiters.
+	flushing     bool
+	flushWaiters []func(err error)
+
 	// Optional callback invoked when a control frame is received.
 	controlCallback ControlCallback
 
@@ -166,6 +171,9 @@ func (s *Stream) reset() {
 	s.conn = nil
 	s.src.Reset()
 	s.dst.Reset()
+
+	s.flushing = false
+	s.flushWaiters = nil
 
 	// Frames queued by a previous session (e.g. a close frame that was never flushed) do not belong to the next one.
 	for _, f := range s.pendingFrames {
@@ -734,6 +742,33 @@ func (s *Stream) Flush() (err error) {
 //
 // This call does not block.
 func (s *Stream) AsyncFlush(callback func(err error)) {
+	if s.flushing {
+		// A flush is in flight: the underlying stream can only carry one asynchronous write at a time. That flush
+		// keeps going until there are no pending frames left, including the ones queued since it started, so it is
+		// enough to be told when it is done.
+		s.flushWaiters = append(s.flushWaiters, callback)
+		return
+	}
+
+	if len(s.pendingFrames) == 0 {
+		callback(nil)
+		return
+	}
+
+	s.flushing = true
+	s.asyncFlush(func(err error) {
+		s.flushing = false
+		waiters := s.flushWaiters
+		s.flushWaiters = nil
+
+		callback(err)
+		for _, waiter := range waiters {
+			waiter(err)
+		}
+	})
+}
+
+func (s *Stream) asyncFlush(callback func(err error)) {
 	if len(s.pendingFrames) == 0 {
 		callback(nil)
 	} else {
@@ -746,7 +781,7 @@ func (s *Stream) AsyncFlush(callback func(err error)) {
 			if err != nil {
 				callback(err)
 			} else {
-				s.AsyncFlush(callback)
+				s.asyncFlush(callback)
 			}
 		})
 	}
